@@ -284,6 +284,11 @@ class Interp(HeapMixin, OpsMixin, StmtMixin, CallMixin):
                             return self.eval(m2.consts[base], E.Frame(rp, None))
                     raise E.Unsupported(f"import {org}")
                 return self.stdlib_name(org)
+        if relpath and relpath.startswith("<") and self.repo.default_hint:
+            # specification frames see the module-level names of the module under verification
+            m0 = self.repo.module(self.repo.default_hint)
+            if name in m0.consts or name in m0.classes or name in m0.functions:
+                return self.lookup_global(name, self.repo.default_hint)
         if name in E.BUILTIN_EXC:
             return VExcClass(name)
         if relpath and relpath.startswith("<") and name in ("hashlib", "json", "re", "math", "time", "datetime"):
